@@ -46,6 +46,10 @@ CHAINS = {
     "eager-nack-exc": ["eager:nack:se"],
     "eager-ack-sr-se": ["eager:ack:sr+se"],
     "eager-reject-none": ["eager:ack:none"],
+    # a user callback registered before the result was set raises when it runs; a retried chain whose second
+    # execution does that must not keep the first execution's outcome
+    "eager-ack-badcb-result": ["eager:ack:cbx+sr"],
+    "fail-eager-nack-badcb-exc": ["fail", "eager:nack:cbx+se"],  # retries=1
 }
 TTLS = {"none": None, "day": 86400.0, "sec": 1.0}
 
@@ -88,7 +92,7 @@ def execute(cell, deviations):
 
 def _execute(cell, deviations):
     chain = CHAINS[cell["chain"]]
-    retries = 1 if cell["chain"] in ("fail-ok", "fail-fail") else 0
+    retries = 1 if cell["chain"] in ("fail-ok", "fail-fail", "fail-eager-nack-badcb-exc") else 0
     recurring = cell["chain"] == "ok-fail"
     ttl = TTLS[cell["ttl"]]
     value = VALUES[cell["val"]]
@@ -120,7 +124,11 @@ def _execute(cell, deviations):
                 await asyncio.sleep(100)
             _, action, sets = step.split(":")
             for s_ in sets.split("+"):
-                if s_ == "sr":
+                if s_ == "cbx":
+                    def bad_callback():
+                        raise RuntimeError("user callback fails")
+                    m.add_callback(bad_callback)
+                elif s_ == "sr":
                     m.set_result(value)
                 elif s_ == "se":
                     m.set_exception(ERRORS[cell["err"]]())
